@@ -43,6 +43,9 @@ CLAIMED = {
  "C16": ("Selection.XPredicate / xpathImpl.resolvePath / resolveOperator / Where / xpathFilter / CheckWhen executed symbolically: for every numeric leaf type (int8..uint64, decimal64) the leaf value and the literal are full-width symbolic and all six operators are checked against the mathematical comparison (strings of <=2 bytes, booleans, enums by name likewise); an unset operand must give false without a crash; where keeps exactly the matching rows of a list with 2 (quick) / 3 (thorough) rows whose operand is present or absent symbolically, also through the text route (?where= parsed by the real xpath lexer and goyacc parser); a notification filter delivers exactly the matching events; when on a container, on a leaf and through a nested path hides the node on reads and suppresses the write on edits exactly when the expression is false.",
          NOTE_COMMON + "Outside the claim: when on list / uses / augment (the library's context-node convention for them is not determinable from the code or its tests), literals outside the operand's type range (the library returns an error), XPath beyond 'path op literal'.",
          "DESIGN.md §2 C16"),
+ "C15": ("writeString (the string escaper) for every string of <=3 (quick) / <=4 (thorough) arbitrary bytes that is valid UTF-8, with and without HTML escaping: the output must be one well-formed JSON string that a reference RFC 8259 parser decodes to the stored text; every invalid-UTF-8 string of <=2 bytes must still give well-formed output. The real JSONWtr (over nodeutil.Extend/Basic, bufio.Writer and bytes.Buffer, all interpreted from source) writes symbolic trees of a schema with string, int8, uint8, boolean, enumeration, empty, decimal64, leaf-list, identityref, nested / empty containers, lists and empty lists; the output is parsed by the reference parser and checked member by member: exactly one value, names (module-qualified at the top level when asked), objects/arrays by node kind, [null] for empty, numbers/booleans/enums (by name or id) equal to the stored values, Pretty vs compact, start selection container / list / list entry, and a failing output stream must surface its error.",
+         NOTE_COMMON + "Outside the claim: int8 values are an enumerated set and decimal64 values concrete (symbolic signed Itoa / FormatFloat are out of reach within minutes), bits / binary / union / anydata leaves, augmenting modules, nesting deeper than 2, every failing position of the output stream (only the single flush of a small document).",
+         "DESIGN.md §2 C15"),
 }
 NA_REASON = "engine under construction; no check registered yet"
 
